@@ -1673,6 +1673,7 @@ pub fn run(ctx: &mut Ctx) {
     }
     ctx.sample(|| "c14 sess 6 fin - 18446744073709551615 9 1 a41 <table>  (one byte, destination fails at its 10th call with BrokenPipe)".into());
     super::c14_more::run(ctx);
+    super::c14_once::run(ctx);
 }
 
 /// F16 (observation, not part of the default run): once the multithreaded writer has returned the
@@ -1707,6 +1708,7 @@ fn f16_case(ctx: &mut Ctx, k: usize) {
 
 fn replay(ctx: &mut Ctx, case: &[String]) {
     if super::c14_more::replay(ctx, case) { return; }
+    if super::c14_once::replay(ctx, case) { return; }
     match case.first().map(|s| s.as_str()) {
         Some("f16") => f16_case(ctx, case.get(1).and_then(|s| s.parse().ok()).unwrap_or(0)),
         Some("scn") => check_scenario(ctx, &case[1], case[2].parse().unwrap()),
